@@ -39,21 +39,23 @@ PusherFiles == IF Sub = 0 THEN 0..7 ELSE {(Sub - 1) % 8}
 StageSquares(i, b) ==
   CASE Family \in {"KQK","KRK","KBK","KNK","KK"} -> Squares
     [] Family = "KPK" -> IF i = 3 THEN (IF Sub = 0 THEN PawnRanks ELSE PawnRanks \cap FilesOf({(Sub-1) % 8})) ELSE Squares
+    [] Family = "KPK7w" -> IF i = 3 THEN RankSet(6) \cap (IF Sub = 0 THEN Squares ELSE FilesOf({(Sub-1) % 8})) ELSE Squares
+    [] Family = "KPK7b" -> IF i = 3 THEN RankSet(1) \cap (IF Sub = 0 THEN Squares ELSE FilesOf({(Sub-1) % 8})) ELSE Squares
     [] Family = "KPKP" -> IF i \in {3,4} THEN (IF Sub = 0 THEN PawnRanks ELSE PawnRanks \cap FilesOf({(Sub-1) % 8, Sub % 8})) ELSE Squares
     [] Family \in {"EPw","EPXw"} ->        \* White pushes, Black captures
-         CASE i = 1 -> RankSet(1) \cap FilesOf(PusherFiles)                 \* P
+        (CASE i = 1 -> RankSet(1) \cap FilesOf(PusherFiles)                 \* P
            [] i = 2 -> {t \in RankSet(3) : \E s \in Where(b, "P") : Abs(FileOf(s) - FileOf(t)) = 1}  \* p
            [] i = 3 -> IF Family = "EPw" THEN Squares
                        ELSE AlignedWith({s + 16 : s \in Where(b, "P")} \cup Where(b, "p"))   \* k: capturer's king
-           [] i = 4 -> IF Family = "EPw" THEN Squares ELSE {0, 7, 56, 63, 26, 29}           \* K
-           [] i = 5 -> AlignedWith({s + 16 : s \in Where(b, "P")} \cup Where(b, "p"))         \* white slider
+           [] i = 4 -> IF Family = "EPw" THEN Squares ELSE (IF Sub = 0 THEN {0, 7, 56, 63, 26, 29} ELSE {0, 63})   \* K
+           [] i = 5 -> AlignedWith({s + 16 : s \in Where(b, "P")} \cup Where(b, "p")))        \* white slider
     [] Family \in {"EPb","EPXb"} ->        \* Black pushes, White captures
-         CASE i = 1 -> RankSet(6) \cap FilesOf(PusherFiles)
+        (CASE i = 1 -> RankSet(6) \cap FilesOf(PusherFiles)
            [] i = 2 -> {t \in RankSet(4) : \E s \in Where(b, "p") : Abs(FileOf(s) - FileOf(t)) = 1}
            [] i = 3 -> IF Family = "EPb" THEN Squares
                        ELSE AlignedWith({s - 16 : s \in Where(b, "p")} \cup Where(b, "P"))
-           [] i = 4 -> IF Family = "EPb" THEN Squares ELSE {0, 7, 56, 63, 34, 37}
-           [] i = 5 -> AlignedWith({s - 16 : s \in Where(b, "p")} \cup Where(b, "P"))
+           [] i = 4 -> IF Family = "EPb" THEN Squares ELSE (IF Sub = 0 THEN {0, 7, 56, 63, 34, 37} ELSE {0, 63})
+           [] i = 5 -> AlignedWith({s - 16 : s \in Where(b, "p")} \cup Where(b, "P")))
     [] Family = "CASTLE" -> IF i <= 6 THEN {<<4, 0, 7, 60, 56, 63>>[i]} ELSE Squares
     [] OTHER -> {}
 
@@ -65,6 +67,8 @@ StageMen ==
     [] Family = "KNK" -> << {"K"}, {"k"}, {"N"} >>
     [] Family = "KPK" -> << {"K"}, {"k"}, {"P"} >>
     [] Family = "KPKP" -> << {"K"}, {"k"}, {"P"}, {"p"} >>
+    [] Family = "KPK7w" -> << {"K"}, {"k"}, {"P"} >>
+    [] Family = "KPK7b" -> << {"k"}, {"K"}, {"p"} >>
     [] Family = "EPw" -> << {"P"}, {"p"}, {"k"}, {"K"} >>
     [] Family = "EPb" -> << {"p"}, {"P"}, {"K"}, {"k"} >>
     [] Family = "EPXw" -> << {"P"}, {"p"}, {"k"}, {"K"}, {"R","B","Q"} >>
